@@ -173,7 +173,7 @@ def _parse_common(text: str, **options: Any) -> datetime | date | time:
     # Grabbing hh:mm:ss
     hour = int(m.group("hour"))
 
-    minute = int(m.group("minute"))
+    minute = int(m.group("minute")) if m.group("minute") else 0
 
     second = int(m.group("second")) if m.group("second") else 0
 
